@@ -49,7 +49,25 @@ def run(p: Program, rep: Report, tier: str) -> None:
         have_roles = set(_roles(fn).values())
         for cnt in ("form_parts_count", "form_memory_size_count"):
             if cnt not in have_roles:
-                continue  # the counter is not a local of the helper: reported as undecided by the per-event rules below
+                # the counter may live in a holder object: its constructor must start it at 0
+                from .mp_iter import _holders, _find_loop, iteration as _iteration
+                _it = _iteration(p, fn)
+                slot = next((k for k, v_ in _it.roles.items() if v_ == cnt and "__" in k), None)
+                if slot is not None:
+                    hname, attr = slot.split("__", 1)
+                    try:
+                        lp_ = _find_loop(p, fn)[0]
+                        hci = next((ci_ for n_, ci_, _c in _holders(p, fn, lp_) if n_ == hname), None)
+                    except Exception:
+                        hci = None
+                    init_ = p.find_method(hci, "__init__") if hci is not None else None
+                    zero = init_ is not None and any(isinstance(n_, (ast.Assign, ast.AnnAssign)) and getattr(n_, "value", None) is not None and isinstance(n_.value, ast.Constant) and n_.value.value == 0 and type(n_.value.value) is int
+                                                   and ast.unparse(n_.targets[0] if isinstance(n_, ast.Assign) else n_.target) == f"{init_.params[0]}.{attr}" for n_ in ast.walk(init_.node))
+                    if zero:
+                        rep.ok("R15.1", f"{name}: {cnt} (kept as {hname}.{attr}) starts at 0")
+                    else:
+                        rep.violation("R15.1", construct(fn, text=f"{cnt} initial value"), where(fn), f"{name}: {cnt} (kept as {hname}.{attr}) does not start at 0")
+                continue  # (not a local of the helper and not found in a holder: reported as undecided by the per-event rules below)
             ini = one("assign", lambda e: e.text == f"{cnt} = 0" and not e.guards)
             if ini:
                 rep.ok("R15.1", f"{name}: {cnt} starts at 0")
